@@ -55,16 +55,16 @@ class Undecided(Exception):
     pass
 
 
-def has_effect(ev):
+def has_effect(ev, ignore_push=False):
     """Does an event list contain anything but empty control structure and marks?"""
     for e in ev:
-        if e[0] == "mark":
+        if e[0] == "mark" or (ignore_push and e[0] == "push"):
             continue
         if e[0] == "loop":
-            if has_effect(e[2]):
+            if has_effect(e[2], ignore_push):
                 return True
         elif e[0] == "case":
-            if any(has_effect(x) for _l, x in e[2]):
+            if any(has_effect(x, ignore_push) for _l, x in e[2]):
                 return True
         else:
             return True
@@ -169,6 +169,7 @@ class Ctx:
         self.collect_asserts = False  # record every assert terminator / panicky std call with the facts known there
         self.asserts = []
         self.aggs = []              # aggregate construction sites (crate enums/structs) with the facts known there
+        self.ok_returns = []        # (body id, block, facts) at every `_0 = Ok(..)` of a body
         self.verify_fn = r"verify_macro_impl$"   # fn(cond, ..) -> Result that is Ok iff cond
         self.napply = 0
         self.log_calls = None       # regex: calls whose (name, args, site) are appended to self.calls
@@ -592,7 +593,7 @@ class Interp:
         try:
             sub = Interp(self.ctx, cb, args, self.depth + 1)
             ev = sub.run()
-            if has_effect(ev):
+            if has_effect(ev, ignore_push=self.ctx.collect_asserts):
                 del self.ctx.asserts[na:]
                 return None
             if self.ctx.collect_asserts:
@@ -710,6 +711,8 @@ class Interp:
                 continue
             v = self.rvalue(s["rv"])
             self.env[s["dst"]["l"]] = v
+            if self.ctx.collect_asserts and s["dst"]["l"] == 0 and s["rv"]["k"] == "agg" and s["rv"].get("variant") == "Ok":
+                self.ctx.ok_returns.append((self.body.id, bi, list(self.assume)))
             if self.ctx.collect_asserts and s["rv"]["k"] == "agg" and s["rv"].get("ak") == "adt" \
                     and s["rv"].get("adt") in self.facts.adts and s["rv"].get("ops"):
                 self.ctx.aggs.append({"adt": s["rv"]["adt"], "variant": s["rv"].get("variant"), "ops": v[3],
@@ -1080,9 +1083,13 @@ class Interp:
         # what the loop verified about *every* element / index holds for all of them afterwards
         univ = [f for f in self.assume[na_loop + 1:] if f[0] == "cond"
                 and mentions(f[1], lambda e: isinstance(e, tuple) and len(e) > 1 and e[0] in ("elem", "idx") and e[1] == lid)]
+        once = [f for f in self.assume[na_loop + 1:] if f[0] == "cond" and f not in univ]
         del self.assume[na_loop:]
         for f in univ:
             self.assume.append(("forall", desc, f[1], f[2]))
+        for f in once:
+            # holds after the loop provided the loop ran at least once
+            self.assume.append(("ifnonempty", desc, f[1], f[2]))
         if strided:
             pev = self.destride(pev, strided, desc, h)
         ev.append(("loop", desc, pev))
